@@ -104,7 +104,7 @@ class Run:
     if self.violations:
       d = os.path.join(REPLAYS, self.pid)
       os.makedirs(d, exist_ok=True)
-      for key, what, payload in self.violations[:20]:
+      for key, what, payload in self.violations[:500]:
         blob = json.dumps({"property": self.pid, "key": key, "what": what, "case": payload},
                           indent=1, sort_keys=True, default=str)
         h = hashlib.sha1(blob.encode()).hexdigest()[:12]
